@@ -793,8 +793,20 @@ def solver_e2e_job(job):
     hi = onp.array([1.0 + rng.random() if j % 2 == 0 else 0.1 + 0.1 * rng.random() for j in range(D)], dtype=onp.float32)
     if kind == "cem" and D >= 2 and seed % 2 == 0:
         lo[-1] = hi[-1] = onp.float32(0.25)   # a pinned parameter (u_min == u_max): every candidate carries exactly that value
-    u_min = {"p": jnp.asarray(lo)}
-    u_max = {"p": jnp.asarray(hi)}
+    # the parameter tree: one leaf "p", or (every third job with D >= 2) two leaves inserted in NON-alphabetical order ("w" = all but the last
+    # dimension, then "a" = the last one): jax flattens dicts by sorted key, so a bound vector built in insertion order is applied to the wrong
+    # entries (seeded change C18-f)
+    split = D >= 2 and seed % 3 == 1
+
+    def pack(v):
+        v = jnp.asarray(v)
+        return {"w": v[: D - 1], "a": v[D - 1:]} if split else {"p": v}
+
+    def unpack(d):
+        return jnp.concatenate([jnp.atleast_1d(d["w"]), jnp.atleast_1d(d["a"])]) if split else d["p"]
+
+    u_min = pack(lo)
+    u_max = pack(hi)
     nan_at = rng.choice([0.2, 0.5, -0.1])
     seen = []
 
@@ -802,7 +814,7 @@ def solver_e2e_job(job):
         seen.append((onp.asarray(p).copy(), float(l)))
 
     def loss(params, transform, rng_):
-        p = params["p"]
+        p = unpack(params)
         val = jnp.floor(jnp.sum(jnp.abs(p)) * 8.0)
         l = jnp.where(p[0] > nan_at, jnp.nan, val)
         jax.debug.callback(log_cb, p, l)
@@ -819,26 +831,26 @@ def solver_e2e_job(job):
         if (seed // 2) % 3 == 1:   # a SINGLE elite (int(num_samples * elite_portion) = 1): the spread of one sample is 0, never NaN (seeded change C18-e)
             ns, ep = ((10, 0.1) if seed % 4 < 2 else (4, 0.26))
         solver = CEMSolver.init(u_min=u_min, u_max=u_max, num_samples=ns, evolution_smoothing=smooth, elite_portion=ep)
-        state = solver.init_state(mean={"p": jnp.asarray(lo + (hi - lo) * rng.random())})
+        state = solver.init_state(mean=pack(lo + (hi - lo) * rng.random()))
         for k in range(T):
             key, sub = jax.random.split(key)
             n0 = len(seen)
             state, losses = cem_step(loss, solver, state, Identity(), sub)
             jax.effects_barrier()
-            iters.append(dict(state_best=float(state.bestsofar_loss), best_member=onp.asarray(state.bestsofar["p"]).copy(), n0=n0, n1=len(seen),
+            iters.append(dict(state_best=float(state.bestsofar_loss), best_member=onp.asarray(unpack(state.bestsofar)).copy(), n0=n0, n1=len(seen),
                               losses=onp.asarray(losses)))
     else:
         from rex.evo import EvoSolver, evo_step
 
         strat = rng.choice(["CMA_ES", "OpenES", "SimpleGA"])
         solver = EvoSolver.init(u_min, u_max, strat, strategy_kwargs=dict(popsize=rng.choice([4, 8, 16])))
-        state = solver.init_state({"p": jnp.asarray(lo + (hi - lo) * rng.random())}, rng=key)
+        state = solver.init_state(pack(lo + (hi - lo) * rng.random()), rng=key)
         for k in range(T):
             key, sub = jax.random.split(key)
             n0 = len(seen)
             (state, _), losses = evo_step(loss, solver, state, Identity(), sub, None)
             jax.effects_barrier()
-            iters.append(dict(state_best=float(state.best_fitness), best_member=onp.asarray(solver.unflatten(state.best_member)["p"]).copy(), n0=n0,
+            iters.append(dict(state_best=float(state.best_fitness), best_member=onp.asarray(unpack(solver.unflatten(state.best_member))).copy(), n0=n0,
                               n1=len(seen), losses=onp.asarray(losses)))
     tr = []
     for it in iters:
@@ -965,6 +977,9 @@ def rlw_replay_job(job):
     g_raw, nodes = compiled.generated_graphs(cfg, 0, 2 * (L + 6), 1)
     nodes = gen.build_nodes(cfg, log=False)
     G = Graph(nodes=dict(nodes), supervisor=nodes["agent"], graphs_raw=g_raw, progress_bar=False)
+    # observation offset: in every third job the observed signal sits far from zero (|mean| / std of several hundred): the running moments must
+    # still be those of everything seen (within float32 tolerance; seeded change C19-f pooled raw second moments and lost the variance)
+    OFF = 1000.0 if job["seed"] % 3 == 2 else 0.0
     # action bounds: mostly NOT centred on zero (seeded change C19-e was invisible for symmetric boxes)
     LOW, HIGH = [(-1.0, 3.0), (0.0, 1.0), (-4.0, -2.0), (-2.0, 2.0)][job["seed"] % 4]
 
@@ -978,7 +993,7 @@ def rlw_replay_job(job):
             return rl.Box(jnp.array([LOW]), jnp.array([HIGH]))
 
         def get_observation(self, gs):
-            return jnp.array([gs.step]).astype(jnp.float32)
+            return jnp.array([gs.step]).astype(jnp.float32) + OFF
 
         def get_output(self, gs, action):
             return probe_out(1, gs.eps, gs.seq["agent"], jnp.round(action[0] * 1000).astype(jnp.int32))
@@ -1053,6 +1068,19 @@ def rlw_replay_job(job):
                 # reward is scaled by the running std of the returns; its sign and zero-ness survive
                 rsign = int(onp.sign(round(float(onp.asarray(rew)[0]), 6)))
                 exp = {k2: ex[k2] for k2 in got}
+                if OFF:
+                    # the model's signal shifted by OFF: sums follow exactly; compared through mean / variance with a float32 tolerance
+                    n_, sx_, sxx_ = ex["on"], ex["osx"] + OFF * ex["on"], ex["osxx"] + 2 * OFF * ex["osx"] + OFF * OFF * ex["on"]
+                    c_ = n_ + 1e-4   # count incl. the wrapper's documented pseudo-sample (count 1e-4, mean 0, var 1)
+                    m_exp = sx_ / c_
+                    v_exp = (sxx_ + 1e-4) / c_ - m_exp * m_exp
+                    for k2 in ("osx", "osxx", "obs"):
+                        got.pop(k2), exp.pop(k2)
+                    obs_got = float(onp.asarray(no.denormalize(obs)).reshape(-1)[0])
+                    if abs(mean - m_exp) > 1e-4 * abs(m_exp) + 1e-3 or abs(var - v_exp) > 3e-4 * abs(v_exp) + 3e-3 or not onp.isfinite(obs_got) or abs(obs_got - (ex["obs"] + OFF)) > 0.26:
+                        bad = dict(step=k, what="running observation moments of an off-centre signal (offset 1000) = mean / variance of everything seen so far",
+                                   expected=dict(mean=m_exp, var=v_exp, obs=ex["obs"] + OFF), got=dict(mean=mean, var=var, obs=obs_got))
+                        break
                 if got != exp:
                     bad = dict(step=k, expected=exp, got=got, diff=[k2 for k2 in got if got[k2] != exp[k2]])
                     break
